@@ -225,3 +225,5 @@ def run(ctx):
     ctx.assume("x86-64 little-endian target for transmute between integers and byte arrays (asserted from the target data layout)")
     ctx.assume("semantics of _pdep/_pext as bit scatter/gather under a constant mask (Intel SDM)")
     ctx.extra["exhaustive"] = True
+    from rules import controls
+    controls.bits_controls(ctx)
